@@ -4,6 +4,9 @@
   been completely received by the peer.
 -/
 import DtnVerif.Lemmas.TcpclSysLift
+import DtnVerif.Lemmas.TcpclRxAck
+import DtnVerif.Lemmas.TcpclAckSucc
+import DtnVerif.Lemmas.TcpclSP
 namespace DtnVerif
 namespace Tcpcl
 
@@ -73,6 +76,59 @@ theorem drained_delivery (w r : Ep) (pipe : Bytes) (hw : EpInv w) (hr : EpInv r)
   unfold deliver
   rw [hD]
   simp only [doneD, htmp, Option.isSome_none, Bool.false_eq_true, if_false, Nat.sub_zero, hns, List.take_length]
+
+/-- everything the writer emitted has been framed by the reader (weaker premises than `Drained`) -/
+theorem drained_processed (w r : Ep) (pipe : Bytes) (hw : EpInv w) (hr : EpInv r)
+    (hwf : ∀ m ∈ w.emitted, m.WF) (hwire : r.rxBytes ++ pipe = w.accepted)
+    (h1 : w.txBuf = []) (h2 : w.connBuf = []) (h3 : pipe = []) (h4 : r.closed = false) :
+    r.processed = w.emitted := by
+  have hacc : w.accepted = encodeAll w.emitted := by
+    have : encodeAll w.emitted = w.accepted ++ w.connBuf ++ w.txBuf := hw.pump
+    rw [this, h2, h1]; simp
+  have hrx : r.rxBytes = encodeAll w.emitted := by
+    rw [← hacc, ← hwire, h3]; simp
+  rw [hr.frame.2.2 h4, hrx]
+  exact stream_full _ (emitted_legal hw) hwf
+
+/-- **Success at quiescence.** Both directions drained and the writer never had to reject anything:
+    every bundle the writer's user queued has been reported `success`, and its send queue is empty. -/
+theorem drained_success (w r : Ep) (pipeWR pipeRW : Bytes) (hw : EpInv w) (hr : EpInv r) (hwake : WakeInv w)
+    (hwfw : ∀ m ∈ w.emitted, m.WF) (hwfr : ∀ m ∈ r.emitted, m.WF)
+    (hwire : r.rxBytes ++ pipeWR = w.accepted) (hwire' : w.rxBytes ++ pipeRW = r.accepted)
+    (hd : Drained w r pipeWR) (hb1 : r.txBuf = []) (hb2 : r.connBuf = []) (hb3 : pipeRW = [])
+    (hq : QInv w) (hsp : SP w) (has : ASInv w) (hra : RxAckInv r)
+    (hnr : ∀ m ∈ w.emitted, m.isRej = false) :
+    (∀ it ∈ w.sendLog, it.tid ∈ w.successLog) ∧ w.txMap = [] := by
+  obtain ⟨htmp, hps, _, hlog⟩ := drained_delivery w r pipeWR hw hr hwake hwfw hwire hd
+  have hback : w.processed = r.emitted :=
+    drained_processed r w pipeRW hr hw hwfr hwire' hb1 hb2 hb3 hd.wOpen
+  have hall : ∀ it ∈ w.sendLog, it.tid ∈ w.successLog := by
+    intro it hit
+    have hmem : (it.tid, it.data) ∈ r.rxLog := by
+      rw [hlog]; exact List.mem_map.mpr ⟨it, hit, rfl⟩
+    obtain ⟨f, l, hend, hack⟩ := hra _ hmem
+    rw [← hback] at hack
+    have := has _ hack
+    simp only [asOK] at this
+    rcases this hend with h | ⟨x, hx, hj⟩
+    · exact h
+    · rw [hnr x hx] at hj; cases hj
+  refine ⟨hall, ?_⟩
+  apply List.eq_nil_iff_forall_not_mem.mpr
+  intro t ht
+  obtain ⟨P, hP⟩ := hw.tx
+  have hnext := hP.nextId
+  have htids := hP.tids
+  simp only [Ep.txView] at hnext htids
+  have h1 : 1 ≤ t := hsp.mapPos t ht
+  have h2 : t < w.txNextId := hq.fresh t ht
+  have hlt : t - 1 < w.sendLog.length := by omega
+  have hget : w.sendLog[t - 1]? = some w.sendLog[t - 1] := List.getElem?_eq_getElem hlt
+  have htid := htids (t - 1) _ hget
+  have hin : w.sendLog[t - 1] ∈ w.sendLog := List.getElem_mem hlt
+  have hs := hall _ hin
+  rw [htid, show t - 1 + 1 = t by omega] at hs
+  exact (hsp.succ t hs).1 ht
 
 end Tcpcl
 end DtnVerif
